@@ -5,7 +5,7 @@ from . import tygen
 TRUSTED = [
     "Lean 4.33 kernel; axioms: propext, Quot.sound at most (see coverage.axioms_used)",
     "hand-written Lean model LlirModel/Typing.lean: resultIR (Type() methods of ir/inst_*.go, terminator.go), resultAsm (asm newXxxInst), and LLVMSpec.resultType "
-    "transcribed from the LangRef (an assumption of the theorems, not derived from LLVM's source)",
+    "transcribed from the LangRef (an assumption of the theorems, not derived from LLVM's source; VALIDATED on every run against llvm-as 14: each expected type is handed to LLVM's own type check, see coverage.llvm_reference)",
     "operands are abstracted to their types; 25 representative kinds (binop stands for the 18 binary/bitwise instructions, cast for the 13 conversions)",
     "constant-expression Type() methods share the instruction rules (same text in ir/constant/expr_*.go); covered by correspondence only through gep (C07)",
     "Go harness ops_typing.go (constructors with parameter operands; parser leg through rendered one-instruction functions)",
@@ -195,6 +195,12 @@ def gen(tier, rng, harness, driver):
         if sp not in ("illtyped", "unknown-op"):
             lines.append(("!typ.ok %s %s" % (k, args)).rstrip() + " " + sp)
             lines.append(("!typ.use %s %s" % (k, args)).rstrip() + " " + sp)
+    # result type of call / invoke / callbr for every KIND of callee value (function, parameter, loaded pointer, bitcast expression, alias, inline asm): the result
+    # is the return type of the function type the callee operand POINTS TO, whatever the callee is (model: LlirModel/CallSite.lean)
+    for site in ("call", "invoke", "callbr"):
+        for kind in ("func", "param", "load", "bitcast", "alias", "asm"):
+            for sg, nx in (("F(v;)", 0), ("F(i32;i8)", 0), ("G(i32;p0(i8))", 0), ("G(i32;p0(i8))", 2), ("G(v;)", 1), ("F(p0(F(v;));i32)", 0)):
+                lines.append("cs.type %s %s %d %s" % (site, sg, nx, kind))
     return lines
 
 
@@ -226,6 +232,9 @@ def nontrivial(ln, model_out):
 
 def search(ln, a, b, harness, driver):
     p = ln.split()
+    if p[0] == "cs.type":
+        # the disagreeing operation IS the failing input: the type computed (and spelled) for the call site is not the one LLVM's rule gives
+        return {"ops": [ln], "impl": [a], "model": [b]}
     sp = C.run_lines([driver], ["typ.spec " + " ".join(p[1:])])[0]
     if sp in ("illtyped", "unknown-op"):
         return None
